@@ -19,7 +19,7 @@ from vmon.libutil import monitored
 
 LEVEL = "exploration"
 SHARDS = {"quick": 16, "thorough": 16}
-MUST = ["accessor.cursor_moved_first", "accessor.order0", "accessor.order1", "accessor.order2", "create.contract_evaluations", "accessor.checks", "reframe.checks", "reframe.socket", "reframe.file-chunked", "reframe.file-short-reads", "reframe.bytes-prefixed", "reframe.twice", "reframe.beyond_20MB", "reframe.train", "reframe.train/bytesio-written", "reframe.train/file-read-size-on-packet-border", "reframe.train/socket-two-packets-per-delivery", "reject.checks", "word1.values", "word2.values"]
+MUST = ["accessor.cursor_moved_first", "accessor.order0", "accessor.order1", "accessor.order2", "create.contract_evaluations", "accessor.checks", "reframe.checks", "reframe.socket", "reframe.file-chunked", "reframe.file-short-reads", "reframe.bytes-prefixed", "reframe.twice", "reframe.beyond_20MB", "reframe.train", "reframe.train/bytesio-written", "reframe.train/file-read-size-on-packet-border", "reframe.train/socket-two-packets-per-delivery", "reframe.train/cut-in-last-packet", "reject.checks", "word1.values", "word2.values"]
 RULE = ("create_ccsds_packet is called on enumerated field values; a postcondition compares the bytes with the "
         "model's bit-string layout (3+1+1+11+2+14+16 bits, length field = len(data)-1) and the harness compares "
         "every accessor, re-frames the packet through ccsds_generator (bytes, BytesIO, and in rotation: chunked file reads, short reads, a "
@@ -163,9 +163,35 @@ def check_packet(ctx, vals, data, reframe=True):
             import contextlib
             train = [prev, raw, prev]
             tb = b"".join(train)
-            mode = n % 5
+            mode = n % 6
             passes = 1
             kw = {}
+            if mode == 5:
+                # the stream ends part-way through the last packet (its header complete): whatever the framer yields must still be a
+                # packet whose accessors agree with its own first six bytes - i.e. only the complete ones
+                cutlen = len(tb) - rr.randrange(1, max(2, len(prev) - 6))
+                src_kind = n % 3
+                out = []
+                with contextlib.redirect_stdout(io.StringIO()):
+                    src = tb[:cutlen] if src_kind == 0 else io.BytesIO(tb[:cutlen]) if src_kind == 1 else \
+                        sources_mod.ScriptedSocket([tb[:cutlen]], closed_by_peer=True)
+                    g = packets.ccsds_generator(src)
+                    s = monitored(lambda: [out.append(x) for x in itertools.islice(g, 5)])
+                    g.close()
+                    if src_kind == 2:
+                        src.close()
+                ctx.count("reframe.train")
+                ctx.count("reframe.train/cut-in-last-packet")
+                for x in out:
+                    word = int.from_bytes(bytes(x)[4:6], "big")
+                    if x.data_length != word or len(x) != 7 + word:
+                        ctx.violation("reframe/train/cut-in-last-packet/accessor-vs-length-word",
+                                      f"a stream cut inside its last packet: the framer yielded {len(x)} bytes whose length word says {word} "
+                                      f"(data_length accessor {x.data_length})", dict(wit, source=("bytes", "bytesio", "socket")[src_kind], cut=cutlen))
+                        break
+                if s.exc is None and [bytes(x) for x in out] != train[:2]:
+                    ctx.violation("reframe/train/cut-in-last-packet/packets", f"expected the two complete packets, got lengths {[len(x) for x in out]}", dict(wit, cut=cutlen))
+                return p
             if mode == 0:
                 src = io.BytesIO()            # filled by write(): its position is at the end when it is handed over
                 src.write(tb)
